@@ -37,6 +37,8 @@ py_value = st.one_of(
     st.sampled_from(['eqany', 'eqraises', 'elementwise']).map(lambda k: {'$': 'weird', 'v': k}),      # objects whose == is unusual: equal to anything / raising / element-wise
     st.sampled_from(['#N/A', '#DIV/0!', '#NAME?', '#NULL!', '#NUM!', '#REF!', '#VALUE!', '#GETTING_DATA', '#ERROR!']).map(lambda c: {'$': 'err', 'v': c}),
     st.lists(st.integers(0, 3), max_size=3).map(lambda l: {'$': 'set', 'v': sorted(set(l))}),
+    # values that cannot be printed (the debug mode must cope: a quarter of the cases run with it on), and values of derived classes
+    st.sampled_from([{'$': 'pow', 'v': [7, 6000]}, {'$': 'badrepr', 'v': None}, {'$': 'sub', 'v': ['int', 5]}, {'$': 'sub', 'v': ['float', 2.5]}, {'$': 'sub', 'v': ['str', 'txt']}, {'$': 'sub', 'v': ['list', [1, 2]]}]),
 )
 
 
@@ -64,22 +66,31 @@ def is_xlerr(v):
     return isinstance(v, BaseException) and type(v).__name__ == 'XLError'
 
 
+def sr(v):
+    try:
+        return repr(v)
+    except Exception:
+        return '<%s object that cannot be printed>' % type(v).__name__
+
+
 def check_variable(case):
     name, others = case['name'], case['others']
     value = dec(fix_float(case['value']))
-    P = hot().Parser()
+    from ..env import DEBUG_DEFAULT
+    P = hot().Parser(debug=bool(DEBUG_DEFAULT[0]))      # (a quarter of the cases with the debug output on; the runner sends it to a buffer)
     others = list(dict((n, v) for n, v in others).items())      # a name is bound once
     for n, v in others:
         if n != name:
             P.set_variable(n, dec(fix_float(v)))
     P.set_variable(name, value)
+    passive_listeners(P, case.get('listeners', 0))
     r = P.parse(name)
     if is_xlerr(value):
         if r['error'] != str(value) or r['result'] is not None:
             raise Violation('variable %s = error %s -> %r' % (name, value, r), r['error'] or enc(r['result']), str(value))
     else:
         if r['error'] is not None or not same(r['result'], value):
-            raise Violation('variable %s = %r evaluates to %r' % (name, value, r['error'] or r['result']), r['error'] or enc(r['result']), enc(value))
+            raise Violation('variable %s = %s evaluates to %s' % (name, sr(value), r['error'] or sr(r['result'])), r['error'] or enc(r['result']), enc(value))
     # case sensitivity: another spelling of the name is a different (unknown) variable
     alt = name.swapcase()
     if alt != name and alt not in ('TRUE', 'FALSE', 'NULL') and alt not in [n for n, v in others]:
@@ -95,7 +106,7 @@ def check_variable(case):
             else:
                 ok = rv['error'] is None and same(rv['result'], v)
             if not ok:
-                raise Violation('after setting %s, variable %s = %r evaluates to %r' % (name, n, v, rv), rv['error'] or enc(rv['result']), enc(v))
+                raise Violation('after setting %s, variable %s = %s evaluates to %s' % (name, n, sr(v), rv['error'] or sr(rv['result'])), rv['error'] or enc(rv['result']), enc(v))
 
 
 def var_classes(c):
@@ -133,8 +144,8 @@ def fn_case(draw):
         args = draw(st.lists(st.one_of(arg_leaf, arg_tree), max_size=4))
         sites.append(args)
     shape = draw(st.sampled_from(['plus', 'array', 'nested', 'alone']))
-    return {'name': name, 'sites': sites, 'shape': shape, 'ret': draw(st.sampled_from(['int', 'int', 'text', 'list', 'none', 'float'])),
-            'callable': draw(st.sampled_from(['function', 'function', 'function', 'empty-mapping', 'zero-length', 'bound-method']))}
+    return {'name': name, 'sites': sites, 'shape': shape, 'ret': draw(st.sampled_from(['int', 'int', 'text', 'list', 'none', 'float', 'bool', 'date', 'tuple', 'emptytext', 'zero', 'nested', 'bigint'])),
+            'callable': draw(st.sampled_from(['function', 'function', 'function', 'empty-mapping', 'zero-length', 'bound-method'])), 'listeners': draw(st.sampled_from([0, 0, 0, 1, 2, 3]))}
 
 
 REF_ENV = {'vars': {'v_a': 4, 'v_b': 9}, 'cells': {'B2': 6}, 'funcs': {}}
@@ -149,7 +160,10 @@ def same_arg(got, want):
 def check_function(case):
     name, sites, shape = case['name'], case['sites'], case['shape']
     calls = []
-    rets = {'int': lambda k: 1000 + k, 'text': lambda k: 'ret%d' % k, 'list': lambda k: [k, 'r'], 'none': lambda k: None, 'float': lambda k: k + 0.25}[case['ret']]
+    import datetime as _dt
+    rets = {'int': lambda k: 1000 + k, 'text': lambda k: 'ret%d' % k, 'list': lambda k: [k, 'r'], 'none': lambda k: None, 'float': lambda k: k + 0.25,
+            'bool': lambda k: k % 2 == 0, 'date': lambda k: _dt.datetime(2020, 1, 1 + k, 6, 30), 'tuple': lambda k: (k, 'r'), 'emptytext': lambda k: '', 'zero': lambda k: 0,
+            'nested': lambda k: [[k, 1], [2, 3]], 'bigint': lambda k: 2 ** 70 + k}[case['ret']]
 
     def recorder(*args):
         k = len(calls)
@@ -177,7 +191,7 @@ def check_function(case):
         # the error-producing argument texts call these built-ins themselves; under a custom function of that name they would be further call sites
         sites = [[['src', '(1/0)', '#DIV/0!'] if a[0] == 'src' else a for a in args] for args in sites]
     nodes = [['call', name, a] for a in sites]
-    numeric = case['ret'] in ('int', 'float')
+    numeric = case['ret'] in ('int', 'float', 'bigint', 'zero')
     if shape == 'nested' and len(nodes) >= 2:
         # G(F(..)): the inner call's value must arrive as the outer call's argument
         top = ['call', name, [nodes[0]] + nodes[1][2]]
@@ -194,6 +208,7 @@ def check_function(case):
         nodes = nodes[:1]
     text = gf.render(top)
     env = Env(vars={'v_a': 4, 'v_b': 9, 'v_err': errors().REF}, cells={'B2': 6}, funcs={name: recorder})
+    passive_listeners(env.P, case.get('listeners', 0) & 3)
     r = env.parse(text)
     d = 'function %s registered; %s ' % (name, text)
     if r['error'] is not None:
@@ -306,7 +321,7 @@ def unknown_case(draw):
         node = ['call', draw(free_fn), args]
     else:
         node = ['var', draw(free_var)]
-    return {'node': node, 'pos': draw(st.sampled_from(POSITIONS)), 'op': draw(st.sampled_from(gf.ARITH + gf.CMP + ['&'])), 'ctx': draw(arg_tree)}
+    return {'node': node, 'pos': draw(st.sampled_from(POSITIONS)), 'op': draw(st.sampled_from(gf.ARITH + gf.CMP + ['&'])), 'ctx': draw(arg_tree), 'listeners': draw(st.sampled_from([0, 0, 0, 1, 2, 3, 15]))}
 
 
 def embed(node, pos, op, ctx):
@@ -333,10 +348,26 @@ def embed(node, pos, op, ctx):
     return ['bin', '+', ['num', '1'], ['bin', '*', ['num', '2'], ['paren', ['bin', op, ['paren', node], ['num', '3']]]]]
 
 
+def passive_listeners(P, digest):
+    """A host that looks every name up in a table of its own and hands the setter whatever it finds - here nothing (None) - must not change name resolution.
+    Registered on some of the four events, chosen by the case."""
+    for bit, kind in enumerate(('callVariable', 'callFunction', 'callCellValue', 'callRangeValue')):
+        if digest >> bit & 1:
+            if kind == 'callVariable':
+                P.on(kind, lambda name, setter: setter({}.get(name)))
+            elif kind == 'callFunction':
+                P.on(kind, lambda name, args, setter: setter({}.get(name)))
+            elif kind == 'callCellValue':
+                P.on(kind, lambda cell, setter: setter(None))
+            else:
+                P.on(kind, lambda start, end, setter: setter(None))
+
+
 def check_unknown(case):
     t = embed(case['node'], case['pos'], case['op'], case['ctx'])
     text = gf.render(t)
     env = Env(vars={'v_a': 4, 'v_b': 9}, cells={'B2': 6})
+    passive_listeners(env.P, case.get('listeners', 0))
     r = env.parse(text)
     if r['error'] != '#NAME?' or r['result'] is not None:
         raise Violation('%s references an unregistered name -> %r, expected #NAME? with an empty result' % (text, r), r['error'] or enc(r['result']), '#NAME?')
@@ -478,7 +509,7 @@ def unknown_key(c):
 
 LAWS = [
     Law('variable_identity', check_variable, quick=3000, thorough=100000, shards=(8, 16), classes=var_classes,
-        strategy=st.fixed_dictionaries({'name': var_name, 'value': py_value, 'others': st.lists(st.tuples(var_name, py_value).map(list), max_size=3)}),
+        strategy=st.fixed_dictionaries({'name': var_name, 'value': py_value, 'others': st.lists(st.tuples(var_name, py_value).map(list), max_size=3), 'listeners': st.sampled_from([0, 0, 0, 1, 3, 15])}),
         required=('int', 'float', 'str', 'bool', 'NoneType', 'list', 'tuple', 'dict', 'bytes', 'Opaque', 'XLError', 'frozenset', 'EqAny', 'EqRaises', 'EqElementwise', 'underscore', 'letters', 'builtin-name'),
         nontrivial=lambda c: not isinstance(c['value'], (int, str)) or isinstance(c['value'], bool) or '_' in c['name'],
         rule='a name of the identifier grammar bound to a value of any Python type (numbers incl. nan/inf and big ints, text, logical, blank, lists, tuples, dicts, bytes, sets, opaque objects, error values) next to up to 3 other variables: '
